@@ -327,10 +327,32 @@ theorem cmp_fragBody (n : Nat) : Cmp (fun _ => True) (fragBody n) LFragment (fun
   exact ⟨[.name "fragment".toList], _, by simp [Ast.tDefinition], ⟨_, rfl⟩, [.name nm], _, rfl, ⟨nm, rfl, hne⟩,
     [.name Ast.sOn, .name tc], _, rfl, ⟨tc, rfl⟩, _, _, rfl, ldirs_split b ds hd, hset⟩
 
+/-- the description check in front: the text of a fragment definition starts with the Name `fragment`, so the
+    `err_and_pop` branch (taken on a String token) is not entered -/
+theorem cmp_fragGuard (n : Nat) : Cmp (fun _ => True) (fragGuard n) LFragment (fun _ => True) (fun _ => True) := by
+  unfold fragGuard optKind
+  apply cmp_peek
+  intro k _
+  by_cases hk : k = .name
+  · subst hk
+    have e : (some Kind.name == some Kind.stringValue) = false := by decide
+    simp only [e, Bool.false_eq_true, if_false]
+    exact (cmp_fragBody n).mono (fun _ _ => trivial) (fun _ _ h => h) (fun _ h => h) (fun _ h => h)
+  · apply cmp_absurd
+    rintro b x cc q0 ⟨nm, tc, ds, ss, rfl, _⟩ hs _ hkk
+    have hx : ∃ x', Ast.tDefinition false (.fragment nm tc ds ss) = .name "fragment".toList :: x' :=
+      ⟨(Ast.tDefinition false (.fragment nm tc ds ss)).tail, by simp [Ast.tDefinition]⟩
+    obtain ⟨x', e⟩ := hx
+    rw [e] at hs
+    obtain ⟨t, tl, rfl, hta⟩ := spells_head hs
+    simp only [headK] at hkk
+    rw [kind_of_astOfV hta] at hkk
+    exact hk hkk.symm
+
 /-- **`fragment_definition` is complete** (entered on the keyword) -/
 theorem fragmentDefinition_complete (n : Nat) :
     Cmp (fun _ => True) (fragmentDefinition n) LFragment (fun _ => True) (fun _ => True) := by
   rw [fragmentDefinition_eq]
-  exact cmp_withNode _ (cmp_fragBody n)
+  exact cmp_withNode _ (cmp_fragGuard n)
 
 end Apollo.Parse
